@@ -229,9 +229,11 @@ def run(prog: Program, rep, tier="quick"):
     ref_dec = pm.funcs.get("_decode_delta_base_offset")
     if ref_dec is None:
         raise AnalysisError("pack._decode_delta_base_offset (reference offset-varint decoder) not found")
-    ref = dec_features(ref_dec.node)
-    if ref != {"msb-first": True, "bias": True}:
-        raise AnalysisError(f"reference decoder features not recognised: {ref}")
+    # the reference is git's varint.c offset encoding; whether the pack decoder itself still has these features is C02's
+    # obligation (R02.4) - a change there must not turn this check into an analysis error
+    ref = {"msb-first": True, "bias": True}
+    if dec_features(ref_dec.node) != ref:
+        rep.note(f"pack._decode_delta_base_offset no longer shows the offset-varint features ({dec_features(ref_dec.node)}): see C02 R02.4")
     for name in ("_decode_varint", "_decompress_path_from_stream"):
         f = fn(name)
         got = dec_features(f.node)
@@ -246,7 +248,7 @@ def run(prog: Program, rep, tier="quick"):
         raise AnalysisError("pack offset-varint encoder (delta_base -= 1) not found")
     got = enc_features(fn("_encode_varint").node)
     rep.ob("R11.5", IDX, "_encode_varint", "v4 prefix-length varint encoder agrees with the pack offset-varint encoder (msb first, bias by one)",
-           got == {"msb-first": True, "bias": True} == enc_features(ref_enc.node), f"features {got}, pack encoder {enc_features(ref_enc.node)}", fn("_encode_varint").node.lineno)
+           got == {"msb-first": True, "bias": True}, f"features {got}, pack encoder {enc_features(ref_enc.node)}", fn("_encode_varint").node.lineno)
     # ---- R11.3
     ir, iw = fn("Index.read"), fn("Index.write")
     g = cfg_of(prog, ir)
